@@ -55,6 +55,7 @@ structure Num (α : Type) where
   sub : α → α → α
   add : α → α → α
   div : α → α → α
+  neg : α → α            -- unary minus
 
 def xlt : XVal → XVal → Bool
   | .nan, _ => false
@@ -105,7 +106,7 @@ def xdiv : XVal → XVal → XVal
 
 def xnum : Num XVal :=
   { ninf := .ninf, pinf := .pinf, zero := .fin 0, one := .fin 1,
-    lt := xlt, le := XVal.le, eq := xeq, sub := xsub, add := xadd, div := xdiv }
+    lt := xlt, le := XVal.le, eq := xeq, sub := xsub, add := xadd, div := xdiv, neg := xneg }
 
 /-! ## trials -/
 
@@ -186,10 +187,37 @@ def calcCrowding {α : Type} (N : Num α) (pop : List (Ind α)) : List (Ind α) 
   | [] => ([], [])
   | p0 :: _ => (List.range p0.values.length).foldl (crowdStep N) (pop, [])
 
-/-- `_crowding_distance_sort(population)` (the list after the call) -/
+/-- Python's `<` on the tuples `(-distance, number)`: the first components are compared with `==`; when they are
+equal the numbers decide, otherwise `<` on the first components does.  (For a NaN first component `==` is false and
+`<` is false both ways; a NaN distance cannot occur for a population without NaN objective values — every distance
+is then a non-negative number or `+inf`, `Lemmas/Nsga2Crowd.crowdingSort_desc` — so that corner is never reached;
+CPython's identity shortcut inside tuple comparison does not matter either, `-d` is a fresh object per call.) -/
+def ltKey {α : Type} (N : Num α) (p q : α × Nat) : Bool :=
+  if N.eq p.1 q.1 then decide (p.2 < q.2) else N.lt p.1 q.1
+
+/-- `_crowding_distance_sort(population)` (the list after the call):
+`population.sort(key=lambda x: (-manhattan_distances[x.number], x.number))` — distance descending (`-(+inf) = -inf`
+first), ties by ascending trial number.  (Repair of finding F-C13-1.) -/
 def crowdingSort {α : Type} (N : Num α) (pop : List (Ind α)) : List (Ind α) :=
   let r := calcCrowding N pop
+  sortByKey (ltKey N) (fun x => (N.neg (lookupD N x.number r.2), x.number)) r.1
+
+/-- the code before the repair of F-C13-1: `population.sort(key=distance); population.reverse()` — equal distances
+come out in the reversed order the LAST per-objective sort left them in, i.e. by the raw last objective.  Kept so
+that a revert is recognised (`C13.crowding_old_order_not_symmetric`, and the correspondence stage names it). -/
+def crowdingSortOld {α : Type} (N : Num α) (pop : List (Ind α)) : List (Ind α) :=
+  let r := calcCrowding N pop
   (sortByKey N.lt (fun x => lookupD N x.number r.2) r.1).reverse
+
+/-! ### mirroring objectives (what `maximize f` vs `minimize -f` does to the raw values the crowding code reads) -/
+
+/-- negate the objectives selected by the mask (missing mask entries = keep) -/
+def flipVals : List Bool → List XVal → List XVal
+  | m :: ms, v :: vs => (if m then xneg v else v) :: flipVals ms vs
+  | [], vs => vs
+  | _ :: _, [] => []
+
+def flipInd (mask : List Bool) (x : Ind XVal) : Ind XVal := { x with values := flipVals mask x.values }
 
 /-! ## `NSGAIIElitePopulationSelectionStrategy.__call__` -/
 
